@@ -105,7 +105,7 @@ fn hdr(id: u16, counts: [u16; 4]) -> Vec<u8> {
 /// hand-built adversarial encodings
 fn adversarial(r: &mut Rng, out: &mut Out) {
     let id = r.next_u64() as u16;
-    match r.below(12) {
+    match r.below(14) {
         0 => {
             // self pointer in the question name
             let mut v = hdr(id, [1, 0, 0, 0]);
@@ -232,6 +232,40 @@ fn adversarial(r: &mut Rng, out: &mut Out) {
             for k in 0..=v.len() {
                 decode_case(&v[..k], out);
             }
+        }
+        11 => {
+            // compressed name at the 255-octet limit: literal labels, then a pointer to a suffix of the
+            // question name (one of its label starts, or its bare root octet); expanded length 253..257
+            // (seeded change C03-7: "a pointer takes two octets" rejected 254 literal octets + pointer to root)
+            let nl = r.range(0, 3);
+            let mut v = hdr(id, [1, 1, 0, 0]);
+            let mut targets = vec![];
+            for _ in 0..nl {
+                targets.push(v.len());
+                let l = r.range(1, 63);
+                v.push(l as u8);
+                v.extend(vec![b'q'; l]);
+            }
+            targets.push(v.len());
+            v.push(0);
+            let qend = v.len();
+            v.extend([0, 1, 0, 1]);
+            let t = *r.pick(&targets);
+            let suffix = qend - t;
+            let total = *r.pick(&[253usize, 254, 255, 255, 255, 256, 257]);
+            let mut lit = total.saturating_sub(suffix);
+            while lit >= 2 {
+                let mut l = (lit - 1).min(63);
+                if lit - 1 - l == 1 {
+                    l -= 1;
+                }
+                v.push(l as u8);
+                v.extend(vec![b'o'; l]);
+                lit -= l + 1;
+            }
+            v.extend([0xC0 | (t >> 8) as u8, t as u8]);
+            v.extend([0, 1, 0, 1, 0, 0, 0, 0, 0, 4, 1, 2, 3, 4]);
+            decode_case(&v, out);
         }
         _ => {
             // name of exactly 255 / 256 octets on the wire
